@@ -1914,6 +1914,12 @@ class Ev:
                 slf.fields[args[0].text()] = args[1]  # object.__setattr__: the plain store
                 return NONE
             raise AnalysisError("super().%s not found at line %d" % (f.attr, e.lineno))
+        if isinstance(f, ast.Attribute) and isinstance(f.value, ast.Name) and f.value.id == "dict" and f.attr == "fromkeys" and len(args) in (1, 2) and "dict" not in env:
+            # dict.fromkeys(it[, v]): the keys in first-seen order, each once
+            d = DictV({})
+            for x in self.iterate(args[0], e):
+                d.d.setdefault(self.key_of(x), args[1] if len(args) == 2 else NONE)
+            return d
         if isinstance(f, ast.Attribute) and isinstance(f.value, ast.Name) and f.value.id == "object" and f.attr == "__setattr__" and len(args) == 3 and isinstance(args[0], Obj) and isinstance(args[1], Str) and args[1].is_lit() and "object" not in env:
             args[0].fields[args[1].text()] = args[2]
             return NONE
